@@ -50,6 +50,12 @@ func ZZ_Inbox() {
 	M := zzrt.Param("M")
 	S := zzrt.Param("S")
 	in := NewInbox(zzrt.Choose(S) + 1)
+	if zzrt.Choose(2) == 1 {
+		// the scheduler's throughput is configuration: with 0 the worker reaches its "throughput exhausted" yield
+		// after the first batch, with the default (300) never within these bounds
+		in.scheduler = NewScheduler(0)
+		zzrt.Reach("throughput-yield-configured")
+	}
 	rec := &zzInRec{}
 	senders := []*PID{nil, NewPID("local", "s/1"), NewPID("local", "s/2")}
 	payload := make([][]int64, T)
